@@ -508,17 +508,22 @@ func (d *indexData) verify() error {
 	// This is not an exhaustive check: the postings can easily
 	// generate OOB acccesses, and are expensive to check, but this lets us rule out
 	// other sources of OOB access.
-	n := len(d.fileNameIndex)
-	if n == 0 {
-		return nil
+	// An index over n documents has n+1 entries; an index without entries
+	// describes no documents (an empty shard). The other per-document data has
+	// to agree in that case too, otherwise later stages index past the end.
+	count := func(indexLen int) int {
+		if indexLen == 0 {
+			return 0
+		}
+		return indexLen - 1
 	}
 
-	n--
+	n := count(len(d.fileNameIndex))
 	for what, got := range map[string]int{
-		"boundaries":        len(d.boundaries) - 1,
+		"boundaries":        count(len(d.boundaries)),
 		"branch masks":      len(d.fileBranchMasks),
-		"doc section index": len(d.docSectionsIndex) - 1,
-		"newlines index":    len(d.newlinesIndex) - 1,
+		"doc section index": count(len(d.docSectionsIndex)),
+		"newlines index":    count(len(d.newlinesIndex)),
 	} {
 		if got != n {
 			return fmt.Errorf("got %s %d, want %d", what, got, n)
